@@ -52,6 +52,10 @@ func genCase(rt *rapid.T) *Case {
 		c.Modes = append(c.Modes, fmt.Sprintf("Md%c", 'a'+rune(i)))
 	}
 	n := ri(rt, 2, 14, "ndecl")
+	if ri(rt, 0, 99, "many") < 4 {
+		// more terminals than fit into a byte
+		n = ri(rt, 240, 330, "ndecl2")
+	}
 	var toks []string
 	seq := 0
 	for i := 0; i < n; i++ {
